@@ -97,6 +97,12 @@ func Start(prop, level string) *Run {
 			r.deadline = r.start.Add(time.Duration(n) * time.Second)
 		}
 	}
+	// a shard shares its parent's deadline (shards may be queued behind others and start late)
+	if at := os.Getenv("VERIF_DEADLINE_AT"); at != "" {
+		if n, err := strconv.ParseInt(at, 10, 64); err == nil && n > 0 {
+			r.deadline = time.Unix(n, 0)
+		}
+	}
 	// soft memory limit: the checks create and drop real instances at a high rate (some allocate tens of MiB
 	// each) under GOGC=400; the limit makes the collector keep up instead of letting the heap grow into the
 	// machine's memory. 16 GiB for a top-level process, an equal share of 32 GiB for a shard.
@@ -513,6 +519,10 @@ func (r *Run) RunShards(n, procs int) {
 		conc = n
 	}
 	sem := make(chan struct{}, conc)
+	deadlineEnv := "VERIF_DEADLINE_AT="
+	if !r.deadline.IsZero() {
+		deadlineEnv = fmt.Sprintf("VERIF_DEADLINE_AT=%d", r.deadline.Unix())
+	}
 	for i := 0; i < n; i++ {
 		go func(i int) {
 			sem <- struct{}{}
@@ -521,7 +531,7 @@ func (r *Run) RunShards(n, procs int) {
 			cmd.SysProcAttr = &syscall.SysProcAttr{Pdeathsig: syscall.SIGKILL}
 			cmd.Env = append(os.Environ(), fmt.Sprintf("VERIF_SHARD=%d/%d", i, n),
 				fmt.Sprintf("VERIF_SHARD_OUT=%s/shard-%s-%d.json", dir, r.Prop, i), fmt.Sprintf("GOMAXPROCS=%d", procs),
-				fmt.Sprintf("VERIF_WORKERS=%d", procs), fmt.Sprintf("VERIF_SCRATCH=%s/shard%d", dir, i), fmt.Sprintf("VERIF_SHARD_CONC=%d", conc))
+				fmt.Sprintf("VERIF_WORKERS=%d", procs), fmt.Sprintf("VERIF_SCRATCH=%s/shard%d", dir, i), fmt.Sprintf("VERIF_SHARD_CONC=%d", conc), deadlineEnv)
 			os.MkdirAll(fmt.Sprintf("%s/shard%d", dir, i), 0o755)
 			out, err := cmd.CombinedOutput()
 			ch <- res{i, err, out}
